@@ -7,6 +7,10 @@ HERE="$(cd "$(dirname "$0")" && pwd)"
 PROP="$1"
 "$HERE/bin/finlint" -repo "${VERIF_REPO:-/repo}" -verif "$HERE" -property "$PROP" -tier thorough
 RC=$?
+if [ $RC -ne 0 ] && [ $RC -ne 1 ]; then
+  echo "VIOLATION property=$PROP replay=$HERE/evidence/$PROP.json (checker ended with status $RC before deciding: undecided)"
+  RC=1
+fi
 if [ -d "$HERE/seeded" ]; then
   for d in "$HERE"/seeded/"$PROP"-*/; do
     [ -f "$d/patch.diff" ] || continue
@@ -15,6 +19,6 @@ if [ -d "$HERE/seeded" ]; then
 fi
 # false-alarm self-test: the behaviour-preserving refactorings must leave the check silent (summary line only)
 if [ -d "$HERE/refactors" ]; then
-  ls -d "$HERE"/refactors/*/ 2>/dev/null | xargs -P 8 -I{} "$HERE/tools/refacrun.sh" {} "$PROP" 2>/dev/null | grep -E " (silent|ALARM|APPLY-FAILED|BUILD-FAILED) " | awk '{c[$3]++} END {printf "selftest: refactorings"; for (k in c) printf " %s=%d", k, c[k]; printf "\n"}'
+  ls -d "$HERE"/refactors/*/ 2>/dev/null | xargs -P 8 -I{} "$HERE/tools/refacrun.sh" {} "$PROP" 2>/dev/null | grep -E " (silent|ALARM|APPLY-FAILED|BUILD-FAILED|CHECKER-CRASHED) " | awk '{c[$3]++} END {printf "selftest: refactorings"; for (k in c) printf " %s=%d", k, c[k]; printf "\n"}'
 fi
 exit $RC
